@@ -792,6 +792,9 @@ def install(extra=(), exclude=()):
             d['get_blas_funcs'] = get_blas_funcs
         if d.get('numpy') is np and (name not in NOPROXY or name in extra):
             d['numpy'] = PROXY
+        if 'pywt' in d and isinstance(d['pywt'], types.ModuleType) and d['pywt'].__name__ == 'pywt':
+            from .pywtmodel import FakePyWT
+            d['pywt'] = FakePyWT(d['pywt'])
         if 'pyfftw' in d and isinstance(d['pyfftw'], types.ModuleType) and d['pyfftw'].__name__ == 'pyfftw':
             from .fftmodel import FakePyFFTW
             d['pyfftw'] = FakePyFFTW(d['pyfftw'])
